@@ -112,10 +112,18 @@ class VersionsProfile(StoreProfile):
             return uni[i]
         if i - len(uni) >= run.params["n_ops"]:
             return None
+        queue = run.scratch.setdefault("queue", [])
+        if queue:
+            return queue.pop(0)
         ents = run.store.listing(m.default_config)
         if not ents:
             return None
         r = rng.random()
+        if rng.random() < 0.06:
+            ep = self.alias_episode(run, ents)
+            if ep:
+                queue.extend(ep[1:])
+                return ep[0]
         if r < 0.07:
             return {"op": "restart"}
         if r < 0.2:
@@ -181,6 +189,50 @@ class VersionsProfile(StoreProfile):
         if r < 0.45:
             return {"op": "publish", "sid": sid}
         return {"op": "ask", "sid": sid, "what": rng.choice(["get_last", "get_next", "get_new"]), "kw": rng.random() < 0.4}
+
+    def alias_episode(self, run, ents):
+        """A file spelled with an extension alias whose member extensions exist at DIFFERENT versions: the greatest version
+        only with the member that sorts first, a smaller one with a member that sorts later; then the three calls."""
+        rng, m = run.rng, run.m
+        files = [e for e in ents if m.is_leaf_type(m.natural_type(e)) and self.vkey_index(run, m.natural_type(e)) is not None]
+        rng.shuffle(files)
+        for f in files[:6]:
+            segs = f.split("/")
+            names = sorted(a for a, mem in m.alias.items() if segs[-1] in mem and len(mem) > 1)
+            if not names:
+                continue
+            a = rng.choice(names)
+            mem = sorted(m.alias[a])
+            lo_ext, hi_ext = mem[-1], mem[0]
+            tn = m.natural_type(f)
+            k = self.vkey_index(run, tn)
+            vals = sorted(self.vocab(run).values(tn, VERSION_KEY) or [])
+            if len(vals) < 2:
+                continue
+            i, existing = self.existing_versions(run, "/".join(segs[:-1] + [a]))
+            top = max(existing) if existing else vals[0]
+            higher = [v for v in vals if v > top]
+            if len(higher) < 2:
+                continue
+            v_lo, v_hi = higher[0], higher[-1] if rng.random() < 0.5 else higher[1]
+            steps = []
+            for v, ext in ((v_lo, lo_ext), (v_hi, hi_ext)):
+                s2 = "/".join(segs[:k] + [v] + segs[k + 1:-1] + [ext])
+                if m.natural_type(s2) and run.store.can_create(m.default_config, s2) == "ok":
+                    steps.append({"op": "create", "cfg": m.default_config, "sid": s2, "data": None})
+            if len(steps) < 2:
+                continue
+            for ver in (segs[k], "*", ">"):
+                sid = "/".join(segs[:k] + [ver] + segs[k + 1:-1] + [a])
+                if m.natural_type(sid):
+                    for what in ("get_last", "get_new", "get_next"):
+                        steps.append({"op": "ask", "sid": sid, "what": what, "kw": False})
+            asks = steps[2:]
+            rng.shuffle(asks)
+            steps = steps[:2] + asks[:4]
+            run.probes["alias_members_at_different_versions"] += 1
+            return steps
+        return None
 
     # ------------------------------------------------------------------ execution
     def apply(self, run, step):
